@@ -3,16 +3,21 @@
 package main
 
 import (
+	"bytes"
 	"encoding/json"
 	"fmt"
 	"net/http"
 	"net/url"
 	"os"
+	"os/signal"
 	"path/filepath"
 	"runtime"
 	"sort"
+	"strconv"
 	"strings"
 	"sync"
+	"sync/atomic"
+	"syscall"
 
 	"github.com/google/pprof/internal/driver"
 	"github.com/google/pprof/internal/plugin"
@@ -60,8 +65,94 @@ func c19SettingsErrCode(err error) int {
 		return 4
 	case strings.HasPrefix(m, "could not encode settings"):
 		return 5
+	case strings.HasPrefix(m, "failed to write settings"), strings.HasPrefix(m, "failed to create settings directory"):
+		return 6
 	}
 	return 9
+}
+
+// c19WithWriteFailure runs fn while no file of this process may grow beyond 8 bytes
+// (RLIMIT_FSIZE with SIGXFSZ ignored: write(2) fails with EFBIG, as a full disk fails with ENOSPC),
+// so that the write of the settings file inside fn fails part way. Everything else fn does
+// (reading, parsing, creating the temporary file, removing it) works normally.
+func c19WithWriteFailure(fail bool, fn func()) {
+	if !fail {
+		fn()
+		return
+	}
+	signal.Ignore(syscall.SIGXFSZ)
+	var old syscall.Rlimit
+	if err := syscall.Getrlimit(syscall.RLIMIT_FSIZE, &old); err != nil {
+		panic(err)
+	}
+	lim := old
+	lim.Cur = 8
+	if err := syscall.Setrlimit(syscall.RLIMIT_FSIZE, &lim); err != nil {
+		panic(err)
+	}
+	defer func() {
+		if err := syscall.Setrlimit(syscall.RLIMIT_FSIZE, &old); err != nil {
+			panic(err)
+		}
+	}()
+	fn()
+}
+
+// c19FileAgrees decodes the settings file INDEPENDENTLY of the code under test (encoding/json into
+// generic maps) and compares names and saved options with what readSettings returns in this
+// process: state that lives in the process (a cache, a shared slice) and not in the file shows here.
+func c19FileAgrees(fname string, fields []driver.VerifField) bool {
+	names, cfgs, rerr := driver.VerifReadSettings(fname)
+	data, err := os.ReadFile(fname)
+	if err != nil {
+		return os.IsNotExist(err) && rerr == nil && len(names) == 0
+	}
+	var file struct {
+		Configs []map[string]interface{} `json:"configs"`
+	}
+	dec := json.NewDecoder(bytes.NewReader(data))
+	dec.UseNumber()
+	if derr := dec.Decode(&file); derr != nil {
+		return rerr != nil
+	}
+	if rerr != nil || len(file.Configs) != len(names) {
+		return false
+	}
+	for i, m := range file.Configs {
+		if n, _ := m["name"].(string); n != names[i] {
+			return false
+		}
+		dump := driver.VerifConfigDump(cfgs[i])
+		for k, f := range fields {
+			if !f.Saved {
+				continue
+			}
+			want := ""
+			switch v := m[f.Name].(type) {
+			case nil:
+				want = map[string]string{"string": "", "int": "0", "float64": "0", "bool": "false"}[f.Kind]
+			case string:
+				want = v
+			case bool:
+				want = fmt.Sprint(v)
+			case json.Number:
+				want = v.String()
+				if f.Kind == "float64" {
+					x, perr := strconv.ParseFloat(v.String(), 64)
+					if perr != nil {
+						return false
+					}
+					want = fmt.Sprint(x)
+				}
+			default:
+				return false
+			}
+			if dump[k][1] != want {
+				return false
+			}
+		}
+	}
+	return true
 }
 
 func c19SettingsState(fname string) Term {
@@ -102,7 +193,7 @@ type c19Op struct {
 
 func (o c19Op) term() Term {
 	switch o.kind {
-	case "save", "menu":
+	case "save", "menu", "save!":
 		return L(S(o.kind), c19ValuesTerm(o.q))
 	default:
 		return L(S(o.kind), S(o.name))
@@ -155,13 +246,15 @@ func c19RunSettings(c *Ctx, fields []driver.VerifField) {
 			c19Collect(strs, o.q)
 			c19Collect(jstrs, o.q)
 			switch o.kind {
-			case "save":
-				err := driver.VerifSetConfig(fname, c19URLOf(o.q))
-				obs = append(obs, L(ZI(c19SettingsErrCode(err)), c19SettingsState(fname)))
+			case "save", "save!":
+				var err error
+				c19WithWriteFailure(o.kind == "save!", func() { err = driver.VerifSetConfig(fname, c19URLOf(o.q)) })
+				obs = append(obs, L(ZI(c19SettingsErrCode(err)), c19SettingsState(fname), Bool(c19FileAgrees(fname, fields))))
 				nt = nt || err == nil
-			case "delete":
-				err := driver.VerifRemoveConfig(fname, o.name)
-				obs = append(obs, L(ZI(c19SettingsErrCode(err)), c19SettingsState(fname)))
+			case "delete", "delete!":
+				var err error
+				c19WithWriteFailure(o.kind == "delete!", func() { err = driver.VerifRemoveConfig(fname, o.name) })
+				obs = append(obs, L(ZI(c19SettingsErrCode(err)), c19SettingsState(fname), Bool(c19FileAgrees(fname, fields))))
 				nt = nt || err == nil
 			case "menu":
 				obs = append(obs, L(ZI(0), c19MenuTerm(fname, o.q)))
@@ -206,9 +299,17 @@ func c19RunSettings(c *Ctx, fields []driver.VerifField) {
 				if !c.R.P(1, 12) {
 					q["config"] = []string{PickS(c.R, c19Names)}
 				}
-				ops = append(ops, c19Op{kind: "save", q: q})
+				kind := "save"
+				if c.R.P(1, 5) {
+					kind = "save!" // the write to disk fails
+				}
+				ops = append(ops, c19Op{kind: kind, q: q})
 			case 3:
-				ops = append(ops, c19Op{kind: "delete", name: PickS(c.R, c19Names)})
+				kind := "delete"
+				if c.R.P(1, 4) {
+					kind = "delete!"
+				}
+				ops = append(ops, c19Op{kind: kind, name: PickS(c.R, c19Names)})
 			default:
 				q := url.Values{}
 				if c.R.Bool() {
@@ -256,7 +357,57 @@ func c19RunSettings(c *Ctx, fields []driver.VerifField) {
 		}
 		seqCase("seq-F25", driver.VerifDefaultConfig(), "absent", nil, nil, ops)
 	}
+	// an error path followed by more work in the same process: on a file holding several named
+	// configurations one edit fails (write to disk fails, or the request itself is refused), then
+	// the menu is rendered and further edits succeed -- the failed edit must leave no trace in
+	// whatever the process keeps between requests
+	for k := 0; k < c.Budget(40, 800); k++ {
+		names := []string{"a", "b", "c"}
+		if c.R.P(1, 4) {
+			names = []string{"a", "b", "c", "b"}
+		}
+		var cfgs []driver.VerifConfig
+		for i := range names {
+			cfg := driver.VerifDefaultConfig()
+			cfg, _, _ = driver.VerifSetField(cfg, "focus", "f"+names[i])
+			cfg, _, _ = driver.VerifSetField(cfg, "nodecount", fmt.Sprint(i+1))
+			cfgs = append(cfgs, cfg)
+		}
+		existing := func() string { return PickS(c.R, []string{"a", "b", "c"}) }
+		var ops []c19Op
+		if c.R.P(1, 3) {
+			ops = append(ops, c19Op{kind: "menu", q: url.Values{}}) // something has read the file before
+		}
+		for i, n := 0, 1+c.R.Intn(2); i < n; i++ {
+			switch c.R.Intn(5) {
+			case 0, 1:
+				ops = append(ops, c19Op{kind: "delete!", name: existing()})
+			case 2, 3:
+				ops = append(ops, c19Op{kind: "save!", q: url.Values{"config": {existing()}, "f": {"changed"}, "h": {"changed"}}})
+			default: // refused before any write: bad option value / unknown name
+				if c.R.Bool() {
+					ops = append(ops, c19Op{kind: "save", q: url.Values{"config": {existing()}, "f": {"changed"}, "n": {"zz"}}})
+				} else {
+					ops = append(ops, c19Op{kind: "delete", name: "nosuch"})
+				}
+			}
+		}
+		for i, n := 0, 1+c.R.Intn(3); i < n; i++ {
+			switch c.R.Intn(4) {
+			case 0:
+				ops = append(ops, c19Op{kind: "menu", q: url.Values{}})
+			case 1:
+				ops = append(ops, c19Op{kind: "save", q: url.Values{"config": {"new" + fmt.Sprint(i)}, "s": {"x"}}})
+			case 2:
+				ops = append(ops, c19Op{kind: "save", q: url.Values{"config": {existing()}, "i": {"y"}}})
+			default:
+				ops = append(ops, c19Op{kind: "delete", name: existing()})
+			}
+		}
+		seqCase("seq-failed-edit", driver.VerifDefaultConfig(), "good", names, cfgs, ops)
+	}
 	c19RunConc(c, fields)
+	c19RunBurst(c, fields)
 }
 
 // c19RunConc: n concurrent save/delete requests against one settings file; the observable is the
@@ -297,46 +448,96 @@ func c19RunConc(c *Ctx, fields []driver.VerifField) {
 			opT = append(opT, o.term())
 			c19Collect(strs, o.q)
 		}
-		// half of the cases go through the real HTTP handlers /saveconfig and /deleteconfig (one
-		// goroutine per request, settings file located through $XDG_CONFIG_HOME), the others call
-		// setConfig / removeConfig directly
-		var handlers map[string]http.Handler
 		viaHTTP := k%2 == 0
-		if viaHTTP {
-			os.Setenv("XDG_CONFIG_HOME", dir)
-			o := driver.VerifSetDefaults(&plugin.Options{UI: c10NullUI{}, Writer: &c10MemWriter{}, HTTPTransport: transport.New(nil)})
-			restoreG := driver.VerifGlobals()
-			h, err := driver.VerifWeb(c10Profile(NewRng(uint64(k)+7)), o)
-			restoreG()
-			driver.VerifSetCurrentConfig(cur)
-			if err != nil {
-				panic(err)
-			}
-			handlers = h
-		}
-		var wg sync.WaitGroup
-		start := make(chan struct{})
-		for _, o := range ops {
-			wg.Add(1)
-			go func(o c19Op) {
-				defer wg.Done()
-				<-start
-				switch {
-				case viaHTTP && o.kind == "save":
-					c10Do(handlers, c10Req{"/saveconfig", o.q})
-				case viaHTTP:
-					c10Do(handlers, c10Req{"/deleteconfig", url.Values{"config": {o.name}}})
-				case o.kind == "save":
-					driver.VerifSetConfig(fname, c19URLOf(o.q))
-				default:
-					driver.VerifRemoveConfig(fname, o.name)
-				}
-			}(o)
-		}
-		close(start)
-		wg.Wait()
+		c19Fire(dir, fname, cur, ops, viaHTTP, k)
 		in := L(S("conc"), c19PfTable(strs), c19JsTable(strs), c19CfgTerm(cur), initT, L(opT...))
 		c.Case("conc", in, c19SettingsState(fname), true, "op:conc", fmt.Sprintf("conc:%d", n), fmt.Sprintf("conc-http:%v", viaHTTP))
+		os.RemoveAll(dir)
+	}
+}
+
+// c19Fire releases the requests at the same instant (spin barrier, one goroutine per request).
+// viaHTTP: through the real HTTP handlers /saveconfig and /deleteconfig (settings file located
+// through $XDG_CONFIG_HOME); otherwise setConfig / removeConfig are called directly.
+func c19Fire(dir, fname string, cur driver.VerifConfig, ops []c19Op, viaHTTP bool, k int) {
+	var handlers map[string]http.Handler
+	if viaHTTP {
+		os.Setenv("XDG_CONFIG_HOME", dir)
+		o := driver.VerifSetDefaults(&plugin.Options{UI: c10NullUI{}, Writer: &c10MemWriter{}, HTTPTransport: transport.New(nil)})
+		restoreG := driver.VerifGlobals()
+		h, err := driver.VerifWeb(c10Profile(NewRng(uint64(k)+7)), o)
+		restoreG()
+		driver.VerifSetCurrentConfig(cur)
+		if err != nil {
+			panic(err)
+		}
+		handlers = h
+	}
+	var wg sync.WaitGroup
+	var arrived int32
+	n := int32(len(ops))
+	for _, o := range ops {
+		wg.Add(1)
+		go func(o c19Op) {
+			defer wg.Done()
+			atomic.AddInt32(&arrived, 1)
+			for atomic.LoadInt32(&arrived) < n { // spin: all requests start within nanoseconds
+			}
+			switch {
+			case viaHTTP && o.kind == "save":
+				c10Do(handlers, c10Req{"/saveconfig", o.q})
+			case viaHTTP:
+				c10Do(handlers, c10Req{"/deleteconfig", url.Values{"config": {o.name}}})
+			case o.kind == "save":
+				driver.VerifSetConfig(fname, c19URLOf(o.q))
+			default:
+				driver.VerifRemoveConfig(fname, o.name)
+			}
+		}(o)
+	}
+	wg.Wait()
+}
+
+// c19RunBurst: the FIRST edits a settings file sees in the life of the process arrive as one
+// burst: 5 saves of new names and 3 deletes of existing names, all names distinct, so every
+// serial order leaves the same set of configurations (compared up to order in R_C19 "burst").
+func c19RunBurst(c *Ctx, fields []driver.VerifField) {
+	prev := runtime.GOMAXPROCS(8)
+	defer runtime.GOMAXPROCS(prev)
+	for k := 0; k < c.Budget(60, 600); k++ {
+		dir, fname := c19Dir()
+		cur := driver.VerifDefaultConfig()
+		driver.VerifSetCurrentConfig(cur)
+		strs := map[string]bool{}
+		c19CollectCfg(strs, cur)
+		names := []string{"keep0", "keep1", "del0", "del1", "del2"}
+		var cfgs []driver.VerifConfig
+		var initL []Term
+		for i := range names {
+			cfg := driver.VerifDefaultConfig()
+			cfg, _, _ = driver.VerifSetField(cfg, "nodecount", fmt.Sprint(i+1))
+			cfgs = append(cfgs, cfg)
+			initL = append(initL, L(S(names[i]), c19CfgTerm(cfg)))
+		}
+		if err := driver.VerifWriteSettings(fname, names, cfgs); err != nil {
+			panic(err)
+		}
+		var ops []c19Op
+		for i, n := 0, 2+c.R.Intn(4); i < n; i++ {
+			ops = append(ops, c19Op{kind: "save", q: url.Values{"config": {fmt.Sprintf("new%d", i)}, "n": {fmt.Sprint(10 + i)}}})
+		}
+		for i, n := 0, 1+c.R.Intn(3); i < n; i++ {
+			ops = append(ops, c19Op{kind: "delete", name: fmt.Sprintf("del%d", i)})
+		}
+		var opT []Term
+		for _, o := range ops {
+			opT = append(opT, o.term())
+			c19Collect(strs, o.q)
+		}
+		viaHTTP := k%2 == 0
+		c19Fire(dir, fname, cur, ops, viaHTTP, k)
+		in := L(S("burst"), c19PfTable(strs), c19JsTable(strs), c19CfgTerm(cur), L(S("good"), L(initL...)), L(opT...))
+		c.Case("burst", in, c19SettingsState(fname), true, "op:burst", fmt.Sprintf("burst:%d", len(ops)), fmt.Sprintf("burst-http:%v", viaHTTP))
 		os.RemoveAll(dir)
 	}
 }
@@ -373,4 +574,81 @@ func c19ChildContents(variant string) ([]string, []driver.VerifConfig) {
 		cfgs = append(cfgs, cfg)
 	}
 	return names, cfgs
+}
+
+// c19EditsChild: `harness c19-edits <settings file> <variant>` runs, in ONE process, a first edit
+// (variant "overwrite" / "delete" / "append") between the two marker stats -- lib/c19_fs.py makes
+// one of its system calls fail with strace -- and then more work: menu, a save of a new name, a
+// delete. It prints the complete "seq" case as JSON {in, obs}: an edit that reported a failed
+// write is recorded as "save!" / "delete!" (the fault is an input of the model).
+func c19EditsChild(args []string) {
+	runtime.LockOSThread()
+	fname, variant := args[0], args[1]
+	fields := driver.VerifConfigFields()
+	cur := driver.VerifDefaultConfig()
+	driver.VerifSetCurrentConfig(cur)
+	names := []string{"a", "b", "c"}
+	var cfgs []driver.VerifConfig
+	var initL []Term
+	for i := range names {
+		cfg := driver.VerifDefaultConfig()
+		cfg, _, _ = driver.VerifSetField(cfg, "focus", "f"+names[i])
+		cfg, _, _ = driver.VerifSetField(cfg, "nodecount", fmt.Sprint(i+1))
+		cfgs = append(cfgs, cfg)
+		initL = append(initL, L(S(names[i]), c19CfgTerm(cfg)))
+	}
+	if err := driver.VerifWriteSettings(fname, names, cfgs); err != nil {
+		fmt.Println("error:", err)
+		os.Exit(3)
+	}
+	if strings.HasSuffix(variant, "+read") { // something (a page render) has read the file before
+		driver.VerifConfigMenu(fname, c19URLOf(url.Values{}))
+	}
+	var first c19Op
+	switch strings.TrimSuffix(variant, "+read") {
+	case "overwrite":
+		first = c19Op{kind: "save", q: url.Values{"config": {"a"}, "f": {"changed"}, "h": {"changed"}}}
+	case "delete":
+		first = c19Op{kind: "delete", name: "a"}
+	default:
+		first = c19Op{kind: "save", q: url.Values{"config": {"d"}, "f": {"added"}}}
+	}
+	ops := []c19Op{first, {kind: "menu", q: url.Values{}}, {kind: "save", q: url.Values{"config": {"e"}, "s": {"x"}}},
+		{kind: "delete", name: "b"}, {kind: "save", q: url.Values{"config": {"c"}, "i": {"y"}}}}
+	strs := map[string]bool{}
+	c19CollectCfg(strs, cur)
+	for _, cfg := range cfgs {
+		c19CollectCfg(strs, cfg)
+	}
+	var opT, obs []Term
+	for i, o := range ops {
+		c19Collect(strs, o.q)
+		var err error
+		if i == 0 {
+			os.Stat("/verif-marker-begin")
+		}
+		switch o.kind {
+		case "save":
+			err = driver.VerifSetConfig(fname, c19URLOf(o.q))
+		case "delete":
+			err = driver.VerifRemoveConfig(fname, o.name)
+		}
+		if i == 0 {
+			os.Stat("/verif-marker-end")
+		}
+		if o.kind == "menu" {
+			opT = append(opT, o.term())
+			obs = append(obs, L(ZI(0), c19MenuTerm(fname, o.q)))
+			continue
+		}
+		code := c19SettingsErrCode(err)
+		if code == 6 {
+			o.kind += "!"
+		}
+		opT = append(opT, o.term())
+		obs = append(obs, L(ZI(code), c19SettingsState(fname), Bool(c19FileAgrees(fname, fields))))
+	}
+	in := L(S("seq"), c19PfTable(strs), c19JsTable(map[string]bool{}), c19CfgTerm(cur), L(S("good"), L(initL...)), L(opT...))
+	b, _ := json.Marshal(map[string]string{"in": Render(in), "obs": Render(L(obs...))})
+	fmt.Println(string(b))
 }
